@@ -17,6 +17,7 @@ func init() {
 	register(&Property{
 		ID: "C15",
 		Explain: "Static sibling-agreement conditions of 'an operation means the same thing through every client path' (equality of results over all input values is NOT decided): " +
+			"(sub-millisecond-expiry-kept) shared with C08/C09: every encoder that puts a relative expiry on the wire in milliseconds rounds a positive duration below one millisecond up instead of truncating it to 0, which the decoders read as no expiry; " +
 			"(option-groups) every option translator keeps ttl options and NX/XX in separate exclusive decisions and handles both groups; " +
 			"(forwarding-covers-local-inputs) every request field the owner-side write path reads is transmitted by the forwarding encoder (or is recomputed on the owner: ctx, hkey, timestamp, kind, fragment), and a timeout travels only with the ttl-only mode; " +
 			"(multi-key-visits-all) the multi-key delete visits every owner group: no success return inside the loop over groups; " +
@@ -26,6 +27,7 @@ func init() {
 			"(handler-lookup) every client-facing DMap handler resolves the DMap with getOrCreateDMap (a member without a local handle still forwards to the owners); " +
 			"(unit-agreement, client-targets-owner) shared with C09 / C07.",
 		Run: func(r *core.Run) {
+			c09SubMillisecondKept(r)
 			c15ParserConsumesAllArguments(r)
 			optionGroups(r)
 			optionsCompose(r)
